@@ -15,7 +15,9 @@ def tasks(ctx, quick):
         seen = set()
         for _ in range(rng.randint(1, 5)):
             a = rng.choice(organics) if rng.random() < 0.7 else gen.next_atom()
-            if tuple(a) in seen or tuple(a) == (1, 1, 0):
+            # H[1] is added separately below; tritium is excluded because fasta.Molecule (deprecated behaviour, documented
+            # with a warning) reads T as labile hydrogen, which D2O_match does not
+            if tuple(a) in seen or tuple(a[:2]) in ((1, 1), (1, 3)):
                 continue
             seen.add(tuple(a))
             comp.append(a + [rng.choice([1, 2, 3, 5, 8, 12, 0.5, 22])])
